@@ -68,4 +68,12 @@ CHECKS = {
              'and that counterexample schedule is replayed on the real code. Real streams are then driven along every witness path containing a read, through directed A-B-A schedules '
              '(read, change through one handle, read, change back, read through another handle) and random 40-step histories mixing 18 properties with every public mutator; TLC judges every read.',
         note='Trusted: TLC; the oracle "fresh stream with equal flows, phases, T, P" evaluated by the same property package (tolerance 1e-9 relative); caches themselves are never observed.'),
+    'C11': dict(
+        engine='Streams', category='model_checking',
+        technique='TLA+ specs (Streams.tla view/total/unit operations; ViewCache.tla for the molar-volume memo, with the original protocol as vacuity guard) checked by TLC; real streams driven from TLC-dumped and random states, along directed read-change-read schedules and random histories; TLC validates every step',
+        text='TLC checks that the volumetric view\'s memo (T, P, phase) -> V always converts with the molar volume of the current state (the phase-less original violates it) and explores the '
+             'stream state machine for pre-states; on the real objects every view read (imass/ivol/mass/vol, F_mol/F_mass/F_vol, get_flow in 13 units) is compared with mol x MW, '
+             'mol x molar volume at the current phase/T/P, sums of those and an independent unit table, every view/unit/total write must store exactly the corresponding molar flows, '
+             'inconsistent units must raise DimensionError, interleaved with T/P/phase/phases changes, linking, copy_like, mixing and property-package resets.',
+        note='Trusted: TLC; chemical.MW / chemical.V evaluated directly as the oracle for the conversion factor; tolerance 1e-9 relative; integer molar flows.'),
 }
